@@ -59,6 +59,7 @@ Inductive err :=
 | EValue              (* ValueError *)
 | EIncompat           (* IncompatibleRenderArgsError *)
 | EStopDefinite       (* StopDefiniteIterationError *)
+| ESizeRange          (* RenderSizeOutofRangeError (draw / _init_render_ only) *)
 | ERender (e : Z).    (* whatever [_render_] raised *)
 
 Inductive out := OFrame (f : frame) | OStop | OOk | OErr (e : err).
